@@ -1,8 +1,69 @@
-import VrpModel.Num
+import VrpModel.Repro
+import VrpProofs.Props.C18
+import Mathlib.Data.List.Sort
+import Mathlib.Data.List.Dedup
 
+/-!
+# C17 — Model construction is reproducible (dataflow level)
+
+What is proved: the arc-based time grid does not depend on the iteration order of the set it is built from;
+the path-based getter's result does not depend on the incoming generator state; equal explicit seeds give
+equal random instances.  What is NOT modelled: hash randomisation, numpy's generator, scipy.stats,
+separate interpreter processes — those are exercised by the subprocess test of the correspondence run.
+-/
 namespace Vrp.C17
+open Vrp
 
-/-- placeholder until the dataflow model is merged -/
-theorem placeholder_true : True := trivial
+theorem nodup_eraseDupsQ (l : List ℚ) : l.eraseDups.Nodup := by
+  induction hn : l.length using Nat.strong_induction_on generalizing l with
+  | _ n ih =>
+    cases l with
+    | nil => simp
+    | cons a as =>
+      rw [List.eraseDups_cons, List.nodup_cons]
+      refine ⟨?_, ?_⟩
+      · simp [List.mem_eraseDups]
+      · refine ih _ ?_ _ rfl
+        subst hn
+        exact Nat.lt_succ_of_le (List.length_filter_le _ _)
+
+/-- two sorted lists with the same elements and no duplicates are equal -/
+theorem sorted_nodup_ext (l₁ l₂ : List ℚ) (h₁ : l₁.Pairwise (· ≤ ·)) (h₂ : l₂.Pairwise (· ≤ ·))
+    (n₁ : l₁.Nodup) (n₂ : l₂.Nodup) (h : ∀ x, x ∈ l₁ ↔ x ∈ l₂) : l₁ = l₂ := by
+  have hp : l₁.Perm l₂ := (List.perm_ext_iff_of_nodup n₁ n₂).2 h
+  exact List.Perm.eq_of_pairwise (fun a b _ _ hab hba => le_antisymm hab hba) h₁ h₂ hp
+
+/-- **the time grid is independent of the iteration order of the set**: any two enumerations of the same set
+    of points (with or without repetitions) give the same grid -/
+theorem timeGrid_perm_invariant (l₁ l₂ : List ℚ) (h : ∀ x, x ∈ l₁ ↔ x ∈ l₂) : timeGrid l₁ = timeGrid l₂ := by
+  unfold timeGrid dedup
+  have s₁ := C18.sortRat_sorted_perm (l₁.eraseDups)
+  have s₂ := C18.sortRat_sorted_perm (l₂.eraseDups)
+  apply sorted_nodup_ext _ _ s₁.1 s₂.1
+  · exact (s₁.2.nodup_iff).2 (nodup_eraseDupsQ _)
+  · exact (s₂.2.nodup_iff).2 (nodup_eraseDupsQ _)
+  · intro x
+    rw [s₁.2.mem_iff, s₂.2.mem_iff, List.mem_eraseDups, List.mem_eraseDups]
+    exact h x
+
+/-- the grid is sorted and has no duplicate values (the hypotheses C05 / C18 need) -/
+theorem timeGrid_sorted_nodup (l : List ℚ) : (timeGrid l).Pairwise (· ≤ ·) ∧ (timeGrid l).Nodup := by
+  unfold timeGrid dedup
+  have s := C18.sortRat_sorted_perm (l.eraseDups)
+  exact ⟨s.1, (s.2.nodup_iff).2 (nodup_eraseDupsQ _)⟩
+
+variable {Rng Out : Type} (M : RngModel Rng Out)
+
+/-- **the path-based pool does not depend on the state of the global generator beforehand** -/
+theorem getPathBased_rng_independent (r₁ r₂ : Rng) : getPathBased M r₁ = getPathBased M r₂ := rfl
+
+/-- **the random-instance generator reproduces the same instance for the same explicit seed** (with
+    `reset_seed`, whatever was drawn before; and for a freshly constructed generator object) -/
+theorem randomMirp_same_seed_same_instance (seed : ℕ) (r₁ r₂ : Rng) :
+    randomMirp M seed true r₁ = randomMirp M seed true r₂ ∧ randomMirpFresh M seed r₁ = randomMirpFresh M seed r₂ :=
+  ⟨rfl, rfl⟩
+
+/-- non-vacuity: the same set given in two orders, with a repetition -/
+example : timeGrid [3, 0, 2, 3, 1] = timeGrid [1, 2, 0, 3] := by decide +kernel
 
 end Vrp.C17
